@@ -46,6 +46,11 @@ struct SinkInner {
     /// when non-zero, `write` takes at most this many bytes per call (a pipe / socket / stderr
     /// like sink) while `write_all` still takes the whole buffer in one call
     short: std::sync::atomic::AtomicUsize,
+    /// when set, a writer holds the sink's lock from make_writer until it is dropped - what
+    /// the library's own `impl MakeWriter for Mutex<W>` does (a panic that unwinds through a live
+    /// writer poisons the lock and the next make_writer panics with "lock poisoned")
+    exclusive: std::sync::atomic::AtomicBool,
+    busy: Mutex<()>,
 }
 #[derive(Clone)]
 struct RecSink(Arc<SinkInner>);
@@ -60,7 +65,18 @@ fn set_opctx(th: u64, op: u64) {
 
 impl RecSink {
     fn new(id: usize) -> Self {
-        RecSink(Arc::new(SinkInner { id, log: Mutex::new(Vec::new()), fail: std::sync::atomic::AtomicBool::new(false), short: std::sync::atomic::AtomicUsize::new(0) }))
+        RecSink(Arc::new(SinkInner { id, log: Mutex::new(Vec::new()), fail: std::sync::atomic::AtomicBool::new(false), short: std::sync::atomic::AtomicUsize::new(0), exclusive: std::sync::atomic::AtomicBool::new(false), busy: Mutex::new(()) }))
+    }
+    #[allow(dead_code)]
+    fn set_exclusive(&self, on: bool) {
+        self.0.exclusive.store(on, Ordering::SeqCst);
+    }
+    fn guard(&self) -> Option<std::sync::MutexGuard<'_, ()>> {
+        if self.0.exclusive.load(Ordering::SeqCst) {
+            Some(self.0.busy.lock().expect("lock poisoned"))
+        } else {
+            None
+        }
     }
     #[allow(dead_code)]
     fn set_short(&self, n: usize) {
@@ -80,11 +96,13 @@ impl RecSink {
     }
 }
 
-struct RecWriter {
+struct RecWriter<'a> {
     sink: RecSink,
     w: u64,
+    #[allow(dead_code)]
+    guard: Option<std::sync::MutexGuard<'a, ()>>,
 }
-impl io::Write for RecWriter {
+impl io::Write for RecWriter<'_> {
     // `write`, `write_all` and `flush` are implemented: write_fmt / write_vectored use the std
     // defaults, which end up in `write` / `write_all`, so every individual write call is seen.
     fn write(&mut self, buf: &[u8]) -> io::Result<usize> {
@@ -111,16 +129,16 @@ impl io::Write for RecWriter {
     }
 }
 impl<'a> MakeWriter<'a> for RecSink {
-    type Writer = RecWriter;
-    fn make_writer(&'a self) -> RecWriter {
+    type Writer = RecWriter<'a>;
+    fn make_writer(&'a self) -> RecWriter<'a> {
         let w = NEXT_W.fetch_add(1, Ordering::Relaxed);
         self.push(w, RecKind::Make(None));
-        RecWriter { sink: self.clone(), w }
+        RecWriter { sink: self.clone(), w, guard: self.guard() }
     }
-    fn make_writer_for(&'a self, meta: &Metadata<'_>) -> RecWriter {
+    fn make_writer_for(&'a self, meta: &Metadata<'_>) -> RecWriter<'a> {
         let w = NEXT_W.fetch_add(1, Ordering::Relaxed);
         self.push(w, RecKind::Make(Some((rank(meta.level()), meta.target().to_string()))));
-        RecWriter { sink: self.clone(), w }
+        RecWriter { sink: self.clone(), w, guard: self.guard() }
     }
 }
 
